@@ -2,7 +2,9 @@
 
    - [sec_at v x]: x is the value of an EXPORTED field tagged coerce:"secure" that can be reached in v
      through structs (exported, not secure-tagged fields; embedded structs / *structs of unexported types,
-     whose fields are promoted), pointers, slices, map values and interface values.  Arrays and ordinary
+     whose fields are promoted), pointers, slices, map values and interface values - or of ANY exported
+     field promoted through an embedded struct / *struct of unexported type that is itself tagged secure:
+     a leaf is secret if any field on its path, embedded ones included, carries the tag.  Arrays and ordinary
      unexported fields are not crossed: both are documented exclusions of clone.Secure ("It does not
      handle arrays", "private fields are not handled").
    - [hidden x]: x is "[secret hidden]" or the zero value of its type.
@@ -12,17 +14,32 @@
    - [scrub]: the one-screen functional specification of what clone.Secure is supposed to compute. *)
 From Coercion.Secure Require Import GoVal.
 
+(* [promoted v y]: y is the value of an exported field of the struct v, or of a struct / *struct embedded in it
+   through unexported anonymous fields: the fields the JSON encoders emit as fields of the embedding struct *)
+Inductive promoted : gv -> gv -> Prop :=
+| P_here : forall fs m y, In (m, y) fs -> f_exported m = true -> promoted (VStruct fs) y
+| P_embed : forall fs m x y,
+    In (m, x) fs -> f_exported m = false -> f_embedded m = true -> promoted x y -> promoted (VStruct fs) y
+| P_embed_ptr : forall fs m x y,
+    In (m, VPtr (Some x)) fs -> f_exported m = false -> f_embedded m = true -> promoted x y -> promoted (VStruct fs) y.
+
 Inductive sec_at : gv -> gv -> Prop :=
 | SA_here : forall fs m x,
     In (m, x) fs -> f_exported m = true -> has_secure (f_tag m) = true -> sec_at (VStruct fs) x
 | SA_field : forall fs m x y,
     In (m, x) fs -> f_exported m = true -> has_secure (f_tag m) = false -> sec_at x y -> sec_at (VStruct fs) y
 | SA_embed : forall fs m x y,           (* embedded struct of an unexported type: its fields are promoted *)
-    In (m, x) fs -> f_exported m = false -> f_embedded m = true -> kind_of x = KStruct ->
-    sec_at x y -> sec_at (VStruct fs) y
+    In (m, x) fs -> f_exported m = false -> f_embedded m = true -> has_secure (f_tag m) = false ->
+    kind_of x = KStruct -> sec_at x y -> sec_at (VStruct fs) y
 | SA_embed_ptr : forall fs m x y,       (* embedded non-nil *struct of an unexported type *)
-    In (m, VPtr (Some x)) fs -> f_exported m = false -> f_embedded m = true -> kind_of x = KStruct ->
-    sec_at x y -> sec_at (VStruct fs) y
+    In (m, VPtr (Some x)) fs -> f_exported m = false -> f_embedded m = true -> has_secure (f_tag m) = false ->
+    kind_of x = KStruct -> sec_at x y -> sec_at (VStruct fs) y
+| SA_embed_tagged : forall fs m x y,    (* the embedded field itself is tagged secure: every promoted field is secret *)
+    In (m, x) fs -> f_exported m = false -> f_embedded m = true -> has_secure (f_tag m) = true ->
+    promoted x y -> sec_at (VStruct fs) y
+| SA_embed_tagged_ptr : forall fs m x y,
+    In (m, VPtr (Some x)) fs -> f_exported m = false -> f_embedded m = true -> has_secure (f_tag m) = true ->
+    promoted x y -> sec_at (VStruct fs) y
 | SA_ptr : forall x y, sec_at x y -> sec_at (VPtr (Some x)) y
 | SA_slice : forall l x y, In x l -> sec_at x y -> sec_at (VSlice (Some l)) y
 | SA_map : forall l k x y, In (k, x) l -> sec_at x y -> sec_at (VMap (Some l)) y
@@ -35,6 +52,39 @@ Definition hiddenb (x : gv) : bool :=
 
 Definition placeholder : gv := VBool false.
 
+(* [blank v]: v with every promoted field blanked (what erase does below a secure-tagged embedded field) *)
+Fixpoint blank (v : gv) : gv :=
+  match v with
+  | VStruct fs =>
+      VStruct (map (fun p => (fst p,
+                              if f_exported (fst p) then placeholder
+                              else if f_embedded (fst p) then
+                                     match snd p with
+                                     | VPtr (Some y) => VPtr (Some (blank y))
+                                     | _ => blank (snd p)
+                                     end
+                              else snd p)) fs)
+  | _ => v
+  end.
+Definition blank_embedded (val : gv) : gv :=
+  match val with VPtr (Some y) => VPtr (Some (blank y)) | x => blank x end.
+
+(* every promoted field hidden *)
+Fixpoint wipedb (v : gv) : bool :=
+  match v with
+  | VStruct fs =>
+      forallb (fun p => if f_exported (fst p) then hiddenb (snd p)
+                        else if f_embedded (fst p) then
+                               match snd p with
+                               | VPtr (Some y) => wipedb y
+                               | _ => wipedb (snd p)
+                               end
+                        else true) fs
+  | _ => true
+  end.
+Definition wipedb_embedded (val : gv) : bool :=
+  match val with VPtr (Some y) => wipedb y | x => wipedb x end.
+
 Fixpoint erase (v : gv) : gv :=
   match v with
   | VStr _ | VNum _ | VBool _ | VTime _ => v
@@ -42,6 +92,7 @@ Fixpoint erase (v : gv) : gv :=
       VStruct (map (fun p => (fst p,
                               if negb (f_exported (fst p)) then
                                 (if f_embedded (fst p) then
+                                   if has_secure (f_tag (fst p)) then blank_embedded (snd p) else
                                    match snd p with
                                    | VStruct _ | VTime _ => erase (snd p)
                                    | VPtr (Some y) => match kind_of y with KStruct => VPtr (Some (erase y)) | _ => snd p end
@@ -57,9 +108,6 @@ Fixpoint erase (v : gv) : gv :=
   | VArray _ => v
   end.
 
-(* "[secret hidden]" for a string, the zero value for everything else *)
-Definition hide (x : gv) : gv := match x with VStr _ => VStr hidden_str | _ => zero x end.
-
 Fixpoint scrub (v : gv) : gv :=
   match v with
   | VStr _ | VNum _ | VBool _ | VTime _ => v
@@ -67,6 +115,7 @@ Fixpoint scrub (v : gv) : gv :=
       VStruct (map (fun p => (fst p,
                               if negb (f_exported (fst p)) then
                                 (if f_embedded (fst p) then
+                                   if has_secure (f_tag (fst p)) then wipe_embedded (snd p) else
                                    match snd p with
                                    | VStruct _ | VTime _ => scrub (snd p)
                                    | VPtr (Some y) => match kind_of y with KStruct => VPtr (Some (scrub y)) | _ => snd p end
@@ -91,6 +140,7 @@ Fixpoint scrubbedb (v : gv) : bool :=
   | VStruct fs =>
       forallb (fun p => if negb (f_exported (fst p)) then
                           (if f_embedded (fst p) then
+                             if has_secure (f_tag (fst p)) then wipedb_embedded (snd p) else
                              match snd p with
                              | VStruct _ | VTime _ => scrubbedb (snd p)
                              | VPtr (Some y) => match kind_of y with KStruct => scrubbedb y | _ => true end
